@@ -107,8 +107,29 @@ fn c02_fault_free(ctx: &VariantCtx) -> WorldOutcome {
     })
 }
 
+fn vw(ctx: &VariantCtx) -> WorldOutcome {
+    let or = crate::vworld::Oracles {
+        c03: ctx.property == "C03",
+        c04: ctx.property == "C04",
+        c06: ctx.property == "C06",
+        c18: ctx.property == "C18",
+    };
+    crate::vworld::run(&or, &ctx.property, if ctx.tier == Tier::Thorough { 8 } else { 5 })
+}
+
+fn kw(ctx: &VariantCtx) -> WorldOutcome {
+    let or = crate::kworld::Oracles { c07: ctx.property == "C07", c08: ctx.property == "C08", c18: ctx.property == "C18" };
+    crate::kworld::run(&or, &ctx.property, if ctx.tier == Tier::Thorough { 6 } else { 4 })
+}
+
 pub fn variants(property: &str, _tier: Tier) -> Vec<Variant> {
     match property {
+        "C03" | "C04" | "C06" => vec![Variant { name: "pool-votes", weight: 1, max_events: 100_000, run: vw }],
+        "C07" | "C08" => vec![Variant { name: "pool-certs", weight: 1, max_events: 100_000, run: kw }],
+        "C18" => vec![
+            Variant { name: "pool-votes", weight: 1, max_events: 100_000, run: vw },
+            Variant { name: "pool-certs", weight: 1, max_events: 100_000, run: kw },
+        ],
         "C01" => vec![
             Variant { name: "cluster-faulty", weight: 2, max_events: 400_000, run: c01_faulty },
             Variant { name: "cluster-splitbrain", weight: 2, max_events: 400_000, run: c01_splitbrain },
@@ -137,8 +158,28 @@ pub fn plan(property: &str, tier: Tier) -> Option<Plan> {
             "exploration",
             "one case = one seeded cluster execution with a drawn stabilisation time T_s (before: arbitrary faults; after: no loss, delay <= 100 ms, <20% Byzantine, <20% further crashed); non-trivial = at least one leader window qualified for the bounded-liveness oracle and (except in the fault-free variant) a pre-T_s fault fired; distinct = distinct per-node history fingerprint",
         ),
+        "C03" => (if q { 6_000 } else { 400_000 }, if q { 90 } else { 1500 }, "exploration",
+            "one case = one pool (3-10 validators, drawn stakes incl. exact-threshold sums, own id) fed a sampled arrival order of validly signed votes of all five kinds from honest-pattern and Byzantine signers over 2-8 slots with 1-3 competing blocks, duplicates, received certificates from signer subsets and block registrations; after every step certificates created are compared with the accepted-vote reference table (only-when, as-soon-as, once, exact signers, ValidatedCert::try_new); non-trivial = a certificate was created from votes and at least one vote was refused; distinct = fingerprint over stakes, certificates created and refusal classes"),
+        "C04" => (if q { 6_000 } else { 400_000 }, if q { 90 } else { 1500 }, "fault_enumeration",
+            "same generator as C03; every add_vote verdict is compared with the order-free admission table derived from the property statement; in addition every run enumerates completely all ordered pairs of the five vote kinds x {same, different} block from one validator on fresh slots (29 pairs); non-trivial = at least two refusal classes occurred in the sampled part; distinct = fingerprint over stakes and refusal classes"),
+        "C06" => (if q { 6_000 } else { 400_000 }, if q { 90 } else { 1500 }, "exploration",
+            "same generator as C03 with the four possible last-arriving triggers (a vote, the own vote, the block registration, the parent certificate by votes or by received certificate) forced last in a share of the runs and siblings sharing one uncertified parent; SafeToNotar/SafeToSkip events are compared after every step with the reference predicate (only-if, at-most-once, as-soon-as); non-trivial = at least one event was raised; distinct = fingerprint incl. the set of events raised"),
+        "C07" => (if q { 8_000 } else { 400_000 }, if q { 90 } else { 1500 }, "exploration",
+            "one case = a protocol-consistent history over 2-6 leader windows (forks, skips, fast/slow finalization, gaps, notar-fallback siblings) of which the pool receives a sampled subset of certificates (or the votes forming them) and block registrations in a sampled order with duplicates, interleaved with waiter registrations; after every step parents_ready, ParentReady events and waiters are compared with reference reachability; non-trivial = at least two (slot, parent) pairs were announced; distinct = fingerprint over announced pairs and finalization reports"),
+        "C08" => (if q { 8_000 } else { 400_000 }, if q { 90 } else { 1500 }, "exploration",
+            "same generator as C07; after every step finalized_slot, the finalization log (hook H5), the pruning watermark, retained slots and SlotOutOfBounds verdicts are compared with the reference 'FastFinal or (Final and Notar), closed under known parent links'; non-trivial = an implicit finalization occurred or two slots were finalized; distinct = fingerprint over the finalization reports"),
+        "C18" => (if q { 6_000 } else { 300_000 }, if q { 90 } else { 1500 }, "exploration",
+            "pool-votes and pool-certs generators with recover_from_standstill() triggered after sampled prefixes of the history (including the empty prefix = fresh pool); the bundle is checked for the finality proof, all later certificates and own votes, validity of every element, and a fresh pool fed only the bundle must reach the same finalized slot and the same ready parents for the following window; non-trivial = recovery was triggered; distinct = history fingerprint"),
         _ => return None,
     };
+    if matches!(property, "C03" | "C04" | "C06" | "C07" | "C08" | "C18") {
+        return Some(Plan {
+            runs, budget_s, level, rule,
+            real: vec!["PoolImpl, SlotState, FinalityTracker, ParentReadyTracker", "certificate constructors and aggregation (cert.rs, aggsig.rs)", "ValidatedVote::try_new / ValidatedCert::try_new", "BLS (blst)"],
+            stubbed: vec!["the other validators: a universe of validly signed votes / certificates / block registrations delivered under the simulated schedule", "Votor and Blockstore are not in this world (their inputs are synthesised)", "signature verification results are memoised per process (same keys, same messages)"],
+            assumptions,
+        });
+    }
     if property == "C02" {
         assumptions.push("liveness is only demanded for windows measured to start after stabilisation (DESIGN §7 C02) and within bound B = 2*DELTA_STANDSTILL + 4*(DELTA_TIMEOUT+4*DELTA_BLOCK)");
     }
